@@ -6,9 +6,14 @@ package main
 // return an error.
 
 import (
+	"context"
 	"errors"
 	"fmt"
 	"io"
+	"io/fs"
+	"net"
+	"net/http"
+	"os"
 	"strings"
 
 	"verifharness/hx"
@@ -21,58 +26,80 @@ var (
 	errClose    = errors.New("scripted close failure")
 )
 
-// failure kinds (xItem.F): "" = plain, "weof", "wueof", "ueof"
-var xKinds = []string{"", "weof", "wueof", "ueof"}
+// xKind: one failure identity.  The error value is the real sentinel of the standard library (or
+// a %w wrapping of it made once, so that it can be recognised by identity later).
+type xKind struct {
+	name string // xItem.F; "" = plain
+	coq  string
+	err  error
+}
 
-func xFailErr(kind string) error {
-	switch kind {
-	case "":
-		return errPlain
-	case "weof":
-		return errWrapEOF
-	case "wueof":
-		return errWrapUEOF
-	case "ueof":
-		return io.ErrUnexpectedEOF
+var xKindTab = []xKind{
+	{"", "FPlain", errPlain},
+	{"weof", "FWrapEOF", errWrapEOF},
+	{"wueof", "FWrapUEOF", errWrapUEOF},
+	{"ueof", "FUnexpEOF", io.ErrUnexpectedEOF},
+	{"closedpipe", "FClosedPipe", io.ErrClosedPipe},
+	{"wclosedpipe", "FWrapClosedPipe", fmt.Errorf("scripted source: read |0: %w", io.ErrClosedPipe)},
+	{"osclosed", "FOsClosed", os.ErrClosed},
+	{"wosclosed", "FWrapOsClosed", &fs.PathError{Op: "read", Path: "/scripted/source", Err: os.ErrClosed}},
+	{"netclosed", "FNetClosed", net.ErrClosed},
+	{"noprogress", "FNoProgress", io.ErrNoProgress},
+	{"canceled", "FCtxCanceled", context.Canceled},
+	{"deadline", "FCtxDeadline", context.DeadlineExceeded},
+	{"bodyclosed", "FBodyClosed", http.ErrBodyReadAfterClose},
+	{"wbodyclosed", "FWrapBodyClosed", fmt.Errorf("scripted source: %w", http.ErrBodyReadAfterClose)},
+}
+
+// failure kinds (xItem.F)
+var xKinds = func() []string {
+	out := make([]string, len(xKindTab))
+	for i, k := range xKindTab {
+		out[i] = k.name
+	}
+	return out
+}()
+
+func xKindOf(kind string) xKind {
+	for _, k := range xKindTab {
+		if k.name == kind {
+			return k
+		}
 	}
 	panic("bad failure kind " + kind)
 }
 
-func xKindCoq(kind string) string {
-	switch kind {
-	case "":
-		return "FPlain"
-	case "weof":
-		return "FWrapEOF"
-	case "wueof":
-		return "FWrapUEOF"
-	case "ueof":
-		return "FUnexpEOF"
-	}
-	panic("bad failure kind " + kind)
-}
+func xFailErr(kind string) error { return xKindOf(kind).err }
+
+func xKindCoq(kind string) string { return xKindOf(kind).coq }
+
+// xIsBodyClosed: the identity MultiReaderCloser.Read knows (errors.Is(err, http.ErrBodyReadAfterClose)).
+func xIsBodyClosed(kind string) bool { return kind == "bodyclosed" || kind == "wbodyclosed" }
 
 // xErrClass: the identity of an error a wrapper handed to the consumer, as a Coq [err] term.
-// io.EOF is recognised by VALUE only (a wrapped EOF is the failure it is).
+// io.EOF is recognised by VALUE only (a wrapped EOF is the failure it is); a scripted failure by
+// the identity of its own error value: the wrapped ones first (their chain contains the bare
+// sentinel), then the bare sentinels by value.
 func xErrClass(err error) (string, bool) {
 	switch {
 	case err == nil:
 		return "ENil", true
 	case err == io.EOF:
 		return "EEOF", true
-	case errors.Is(err, errPlain):
-		return "(EFail FPlain)", true
-	case errors.Is(err, errWrapEOF):
-		return "(EFail FWrapEOF)", true
-	case errors.Is(err, errWrapUEOF):
-		return "(EFail FWrapUEOF)", true
-	case errors.Is(err, io.ErrUnexpectedEOF):
-		return "(EFail FUnexpEOF)", true
+	}
+	// the outermost error value of the chain that is one of ours decides
+	for e := err; e != nil; e = errors.Unwrap(e) {
+		for _, k := range xKindTab {
+			if e == k.err {
+				return "(EFail " + k.coq + ")", true
+			}
+		}
 	}
 	return "", false
 }
 
-// Item kinds: "data", "zero", "dataeof", "fail", "datafail".
+// Item kinds: "data", "zero", "dataeof", "fail", "datafail", "dataerr" (transient: the failure is
+// reported once, with the last byte of D, and later reads go on with the rest of the script).
 type xItem struct {
 	K string `json:"k"`
 	D []byte `json:"d,omitempty"`
@@ -137,6 +164,16 @@ func (r *xReader) Read(p []byte) (int, error) {
 		n := copy(p, it.D[:len(p)])
 		it.D = it.D[len(p):]
 		return n, nil
+	case "dataerr":
+		if len(it.D) <= len(p) {
+			n := copy(p, it.D)
+			err := xFailErr(it.F)
+			r.items = r.items[1:]
+			return n, err
+		}
+		n := copy(p, it.D[:len(p)])
+		it.D = it.D[len(p):]
+		return n, nil
 	}
 	panic("bad script item " + it.K)
 }
@@ -166,7 +203,7 @@ func (s xScript) Data() ([]byte, string) {
 			return append(out, it.D...), ""
 		case "fail":
 			return out, "fail:" + it.F
-		case "datafail":
+		case "datafail", "dataerr":
 			return append(out, it.D...), "fail:" + it.F
 		}
 	}
@@ -187,6 +224,8 @@ func (s xScript) Coq() string {
 			items[i] = "Fail " + xKindCoq(it.F)
 		case "datafail":
 			items[i] = "DataFail " + xparen(hx.CoqBytes(it.D)) + " " + xKindCoq(it.F)
+		case "dataerr":
+			items[i] = "DataErr " + xparen(hx.CoqBytes(it.D)) + " " + xKindCoq(it.F)
 		default:
 			panic("bad script item " + it.K)
 		}
@@ -212,6 +251,8 @@ func (s xScript) Shape() string {
 			sb.WriteString("f" + it.F)
 		case "datafail":
 			sb.WriteString("dF" + it.F)
+		case "dataerr":
+			sb.WriteString("dT" + it.F)
 		default:
 			sb.WriteByte(it.K[0])
 		}
@@ -221,7 +262,9 @@ func (s xScript) Shape() string {
 
 // xStyle: how a script is laid out around its data.  end: 0 = EOF alone after the data, 1 = EOF
 // with the last data, 2 = failure (0, err) after the data, 3 = failure together with the last
-// data; kind = failure identity for 2/3; zeros = zero-length reads interleaved.
+// data, 4 = TRANSIENT failure together with the last data: the source then goes on (two more
+// bytes, or straight to EOF) - to be seen only if a wrapper swallows the error; kind = failure
+// identity for 2/3/4; zeros = zero-length reads interleaved.
 type xStyle struct {
 	zeros bool
 	end   int
@@ -244,13 +287,22 @@ func (st xStyle) finish(s xScript) xScript {
 		} else {
 			s = append(s, xItem{K: "datafail", F: st.kind})
 		}
+	case 4, 5:
+		if n := len(s); n > 0 && s[n-1].K == "data" {
+			s[n-1].K, s[n-1].F = "dataerr", st.kind
+		} else {
+			s = append(s, xItem{K: "dataerr", F: st.kind})
+		}
+		if st.end == 4 {
+			s = append(s, xItem{K: "data", D: []byte{0xEE, 0xEF}})
+		}
 	}
 	return s
 }
 
 // xStyles: the seven reader styles every generator goes through; the failure identity of the
 // last two is drawn per use (xStyleOf).
-const nXStyles = 7
+const nXStyles = 8
 
 func xStyleOf(r *hx.Rand, i int) xStyle {
 	nonPlain := xKinds[1+r.Intn(len(xKinds)-1)]
@@ -267,8 +319,10 @@ func xStyleOf(r *hx.Rand, i int) xStyle {
 		return xStyle{zeros: true, end: 1}
 	case 5:
 		return xStyle{zeros: r.Chance(1, 3), end: 2, kind: nonPlain}
-	default:
+	case 6:
 		return xStyle{zeros: r.Chance(1, 3), end: 3, kind: xKinds[r.Intn(len(xKinds))]}
+	default:
+		return xStyle{zeros: r.Chance(1, 3), end: 4 + r.Intn(2), kind: xKinds[r.Intn(len(xKinds))]}
 	}
 }
 
@@ -287,7 +341,7 @@ func xGen(r *hx.Rand, data []byte, st xStyle, maxChunk int) xScript {
 		s = append(s, xItem{K: "data", D: append([]byte(nil), rest[:k]...)})
 		rest = rest[k:]
 	}
-	if st.zeros && st.end != 1 && st.end != 3 && r.Chance(1, 3) {
+	if st.zeros && (st.end == 0 || st.end == 2) && r.Chance(1, 3) {
 		s = append(s, xItem{K: "zero"})
 	}
 	return st.finish(s)
